@@ -1363,7 +1363,12 @@ def gen_c10(seed, tier):
             g.tick(0.5)
             g.ev("req", f=f)
         elif fk == "wrong-key":
-            g.ev("setview", node=idp["name"], peer=sp["name"], spec=dict(sp, key=r.pick([9, 10, 11])))
+            wk = dict(sp, key=r.pick([9, 10, 11]))
+            if mkrng(seed, "wrongkey-enc", f).chance(0.4):
+                # ... and the key the request is signed with is one the receiver knows for this sender, but for
+                # encryption only (use="encryption" KeyDescriptor): it authenticates nothing
+                wk["enc_keys"] = [sp["key"]]
+            g.ev("setview", node=idp["name"], peer=sp["name"], spec=wk)
             g.ev("req", f=f)
             g.ev("refresh", node=idp["name"])
         elif fk == "stale-md":
